@@ -19,6 +19,7 @@ Definition created_by (s : lst) (o : lop) : list Z :=
   | OCreateRef id => [id; id + 500]
   | OChild h => match lget s h with LNode id => [id + 100] | _ => [] end
   | OIntoChild h => match lget s h with LNode id => [id + 200] | _ => [] end
+  | OGrpIntoChild h => match lget s h with LGrp id _ | LGrpC id => [id + 200] | _ => [] end
   | OClone h => match lget s h with LCl id | LGrpC id => [id + 1000] | _ => [] end
   | OLastRefFin id => [id]
   | OLastRefIntoChild id => [id; id + 200]
@@ -123,7 +124,7 @@ Theorem lstep_inv s o : LInv s ->
   (uses_borrowed o = false -> leaked s' = leaked s).
 Proof.
   intros I. pose proof I as (IL & IV & IK).
-  destruct o as [id|id|id|id e|h|h|h|h|h|h|h|h|h|id|id|id]; cbn [lstep created_by uses_borrowed].
+  destruct o as [id|id|id|id e|h|h|h|h|h|h|h|h|h|id|id|id|h|h]; cbn [lstep created_by uses_borrowed].
   - exact (spawn_step s (LNode id) 0 I eq_refl).
   - exact (spawn_step s (LCl id) 8 I eq_refl).
   - exact (spawn_step s (LRef id) 9 I eq_refl).
@@ -159,6 +160,16 @@ Proof.
   - cbn. repeat split; auto.
   - cbn. repeat split; auto.
   - exact (spawn_step s (LChild id) 15 I eq_refl).
+  - destruct (lget s h) eqn:G; try exact (rej_step s 16 (OCall h) I).
+    all: assert (N : lget s h <> LDead) by (rewrite G; discriminate); pose proof (kill_step s h I N) as K; rewrite G in K; exact K.
+  - destruct (lget s h) eqn:G; try exact (rej_step s 17 (OCall h) I).
+    all: assert (N : lget s h <> LDead) by (rewrite G; discriminate);
+      cbn [lnew lkill lpool level leaked live]; destruct (kill_inv s h I (lget_live s h N)) as (K & P); rewrite G in K, P; cbn [holds alive_ids length] in K, P;
+      destruct (spawn_inv _ (LChild (id + 200)) K) as (S & E); cbn [lpool level leaked live holds alive_ids length] in S, E;
+      (split; [|split; [|reflexivity]]);
+      [ replace (level s + 0) with (level s - 1 + 1) by lia; replace (live s + 0) with (live s - nz 1 + nz 1) by lia; exact S
+      | rewrite E; rewrite <- app_assoc; cbn [app];
+        (etransitivity; [apply Permutation_app_tail, P|]); rewrite <- app_assoc; apply Permutation_app_head; apply perm_swap ].
 Qed.
 
 (* ---- whole histories ------------------------------------------------------------------------------------------ *)
